@@ -338,6 +338,7 @@ UNITS = [
       loops=[MATCH_LOOP], kind="unbounded", need_classes=["postcondition", "loop_invariant_step"], native=None, stubs=["lrtr_realloc", "lrtr_free"]),
     U(id="elem_match", props=["C01"], file="units/elems.c", entry="h_elem_match", defines=["H_ENTRY=h_elem_match"], enforce=[], plain=True,
       checked_by_assertions=["pfx_table_elem_matches"], need_classes=["assertion"], kind="bounded: at most 4 records per prefix", bound=6,
+      cbmc_flags=["--sat-solver", "cadical"],
       native=None, allow_undefined=True, stubs=["lrtr_realloc", "lrtr_free"]),
     U(id="del_elem", props=["C02", "C18"], file="units/elems.c", entry="h_del_elem", defines=["H_ENTRY=h_del_elem"], enforce=["pfx_table_del_elem"],
       loops=[DEL_LOOP], kind="unbounded", need_classes=["postcondition", "loop_invariant_step"], native=None, stubs=["lrtr_realloc", "lrtr_free"]),
